@@ -23,6 +23,9 @@ import (
 )
 
 type Case struct {
+	// AfterPanic: before the case is built, another File is rendered that panics in the documented
+	// way (Lit of an unsupported type) half-way through; the panic is recovered, as a caller would.
+	AfterPanic bool `json:"afterpanic,omitempty"`
 	// Late: configuration calls made after a first Render of the same File; the File is then
 	// rendered again and must equal gofmt of an identically configured NoFormat File.
 	Late  []recipe.FileOp   `json:"late,omitempty"`
@@ -84,6 +87,19 @@ func inKnownClass(c Case) bool {
 func checkX(c Case, exclude bool) error {
 	if exclude && inKnownClass(c) {
 		return nil
+	}
+	if c.AfterPanic {
+		func() {
+			defer func() { _ = recover() }()
+			f := jen.NewFile("leak")
+			f.Var().Id("leaked").Op("=").Lit(1)
+			f.Var().Id("boom").Op("=").Lit(struct{}{}) // documented panic: unsupported type for literal
+			_ = f.Render(&bytes.Buffer{})
+		}()
+		func() {
+			defer func() { _ = recover() }()
+			_ = jen.Id("leakedstmt").Op(":=").Lit(1).Line().Lit([]int{}).Render(&bytes.Buffer{})
+		}()
 	}
 	c.Forms.Rewind()
 	ba := &recipe.Builder{Forms: c.Forms}
@@ -282,7 +298,7 @@ func TestC02(t *testing.T) {
 		for i := 0; i < n; i++ {
 			f.Body = append(f.Body, gen.Decl(rt, 3))
 		}
-		c := Case{File: f, Forms: forms(rt)}
+		c := Case{File: f, Forms: forms(rt), AfterPanic: rapid.IntRange(0, 5).Draw(rt, "afterpanic") == 0}
 		if rapid.Bool().Draw(rt, "late") {
 			// configuration that does not touch the body, applied after the first render
 			c.Late = gen.FileSettings(rt).Ops
